@@ -15,6 +15,7 @@ import (
 
 func TestMain(m *testing.M) {
 	rt.InstallHooks()
+	model.PinnedMaxEmptyZero = rt.KnownFor("C04", "model", "Max", "trace-mismatch-on-empty-source") != nil
 	code := m.Run()
 	rt.Flush()
 	os.Exit(code)
